@@ -45,6 +45,9 @@ const DEFECTS: &[Defect] = &[
     Defect { kind: "semantic: pointer to short (global)", text: "short *ps;", msg: "Type too complex", level: 0, needs: "" },
     Defect { kind: "semantic: pointer to short (local)", text: "  short *pl;", msg: "Type too complex", level: 1, needs: "" },
     Defect { kind: "semantic: pointer to short (parameter)", text: "void fq(char xq, short *q) { }", msg: "Type too complex", level: 0, needs: "" },
+    Defect { kind: "semantic: goto to an undefined label", text: "  goto nolabel;", msg: "Undefined label nolabel", level: 1, needs: "" },
+    Defect { kind: "semantic: label defined twice", text: "  v0 = 1; twice: v0 = 2; twice: v0 = 3;", msg: "already defined", level: 1, needs: "" },
+    Defect { kind: "generator: strobe of an element", text: "  strobe(v0[1]);", msg: "Strobe only works", level: 1, needs: "" },
 ];
 
 pub struct Case {
